@@ -33,24 +33,21 @@ def stepW (P : Params) (s : List Block × DB) : Step → List Block × DB
 
 def walk (P : Params) (steps : List Step) (s : List Block × DB) : List Block × DB := steps.foldl (stepW P) s
 
-/-- every attached block is valid on the chain it is attached to (`needNoVote`: and pays no
-    vote output to a wallet program) -/
-def WalkOK (P : Params) (needNoVote : Bool) : List Step → List Block → Prop
+/-- every attached block is valid on the chain it is attached to -/
+def WalkOK (P : Params) : List Step → List Block → Prop
   | [], _ => True
-  | .push b :: rest, chain =>
-    validBlockB P b (rescan P chain) = true ∧ (needNoVote = true → noOwnedVoteBlockB P b = true) ∧
-      WalkOK P needNoVote rest (b :: chain)
-  | .pop :: rest, chain => WalkOK P needNoVote rest chain.tail
+  | .push b :: rest, chain => validBlockB P b (rescan P chain) = true ∧ WalkOK P rest (b :: chain)
+  | .pop :: rest, chain => WalkOK P rest chain.tail
 
 def ChainOK (P : Params) : List Block → Prop
   | [] => True
-  | b :: c => validBlockB P b (rescan P c) = true ∧ noOwnedVoteBlockB P b = true ∧ ChainOK P c
+  | b :: c => validBlockB P b (rescan P c) = true ∧ ChainOK P c
 
 /-- detaching a block right after attaching it restores the wallet (up to ValidHeight) -/
 theorem detach_attach_inverse (P : Params) (b : Block) (db : DB)
-    (hv : validBlockB P b db = true) (hn : noOwnedVoteBlockB P b = true) :
+    (hv : validBlockB P b db = true) :
     CoreEq (detach P b (attach P b db)) db :=
-  detach_attach_block P b db hv hn
+  detach_attach_block P b db hv
 
 /-- attach and detach act on what the wallet holds, not on how it got there -/
 theorem attach_respects_coreEq (P : Params) (b : Block) (a c : DB) (h : CoreEq a c) :
@@ -61,7 +58,7 @@ theorem detach_respects_coreEq (P : Params) (b : Block) (a c : DB) (h : CoreEq a
 
 /-- invariant step of the walk -/
 theorem walk_invariant (P : Params) : ∀ (steps : List Step) (chain : List Block) (db : DB),
-    ChainOK P chain → CoreEq db (rescan P chain) → WalkOK P true steps chain →
+    ChainOK P chain → CoreEq db (rescan P chain) → WalkOK P steps chain →
     ChainOK P (walk P steps (chain, db)).1 ∧
       CoreEq (walk P steps (chain, db)).2 (rescan P (walk P steps (chain, db)).1) := by
   intro steps
@@ -71,48 +68,41 @@ theorem walk_invariant (P : Params) : ∀ (steps : List Step) (chain : List Bloc
     intro chain db hc he hw
     cases st with
     | push b =>
-      obtain ⟨hv, hn, hrest⟩ := hw
+      obtain ⟨hv, hrest⟩ := hw
       simp only [walk, List.foldl_cons, stepW]
-      exact ih (b :: chain) (attach P b db) ⟨hv, hn rfl, hc⟩ (attach_congr P b he) hrest
+      exact ih (b :: chain) (attach P b db) ⟨hv, hc⟩ (attach_congr P b he) hrest
     | pop =>
       cases chain with
       | nil =>
         simp only [walk, List.foldl_cons, stepW]
         exact ih [] db hc he hw
       | cons b c =>
-        obtain ⟨hv, hn, hc'⟩ := hc
+        obtain ⟨hv, hc'⟩ := hc
         simp only [walk, List.foldl_cons, stepW]
         refine ih c (detach P b db) hc' ?_ hw
         have h1 : CoreEq (detach P b db) (detach P b (attach P b (rescan P c))) := detach_congr P b he
-        exact h1.trans (detach_attach_block P b (rescan P c) hv hn)
+        exact h1.trans (detach_attach_block P b (rescan P c) hv)
 
-/-- `wallet_eq_rescan_partial`: for EVERY walk of attaches and detaches starting from the
-    empty wallet in which each attached block is valid on the chain it extends and pays no
-    vote output to a wallet program, the wallet's UTXOs equal (in identity, asset, amount,
-    program, account, vote) those of a wallet that scans only the resulting chain. -/
-theorem wallet_eq_rescan_partial (P : Params) (steps : List Step) (hw : WalkOK P true steps []) :
+/-- `wallet_eq_rescan` (full strength): for EVERY walk of attaches and detaches starting from the
+    empty wallet in which each attached block is valid on the chain it extends — vote outputs
+    paid to the wallet included — the wallet's UTXOs equal (in identity, asset, amount, program,
+    account, vote) those of a wallet that scans only the resulting chain. -/
+theorem wallet_eq_rescan (P : Params) (steps : List Step) (hw : WalkOK P steps []) :
     CoreEq (walk P steps ([], [])).2 (rescan P (walk P steps ([], [])).1) :=
   (walk_invariant P steps [] [] trivial (CoreEq.refl _) hw).2
 
-/-- the FULL statement (no exclusion of wallet vote outputs). Refuted below. -/
-def wallet_eq_rescan_full : Prop :=
-  ∀ (P : Params) (steps : List Step), WalkOK P false steps [] →
-    CoreEq (walk P steps ([], [])).2 (rescan P (walk P steps ([], [])).1)
-
-/-- F14 witness: program 1 belongs to account 1; block 1 pays a vote output (id 2) to it;
-    attach then detach block 1: the vote UTXO stays although the chain is empty again. -/
+/-- the former F14 witness: program 1 belongs to account 1; block 1 pays a vote output (id 2) to
+    it; attach then detach block 1: the wallet is empty again, as a rescan of the empty chain. -/
 def f14Params : Params := ⟨fun _ => true, fun p => if p = 1 then 1 else 0, 10, fun _ => 10⟩
 def f14Block : Block := ⟨1, 0, 0, [⟨false, [], [⟨2, 1, 0, 500, 1, 7⟩]⟩]⟩
 
-theorem wallet_eq_rescan_full_refuted : ¬ wallet_eq_rescan_full := by
-  intro h
-  have h1 := h f14Params [.push f14Block, .pop] (by simp only [WalkOK]; decide) 2
-  revert h1
-  decide
+example : WalkOK f14Params [.push f14Block, .pop] [] := by simp only [WalkOK]; decide
+example : (walk f14Params [.push f14Block] ([], [])).2 = [⟨2, 0, 500, 1, 7, 1, 10, 2, 0⟩] := by decide
+example : (walk f14Params [.push f14Block, .pop] ([], [])).2 = [] := by decide
 
-/-- the hypotheses of the partial theorem are satisfiable by a non-trivial walk: block 1 pays
+/-- the hypotheses are satisfiable by a non-trivial walk: block 1 pays
     output 1 to the wallet, block 2 spends it and pays output 2 back, then block 2 is detached -/
-example : WalkOK f14Params true
+example : WalkOK f14Params
     [.push ⟨1, 0, 0, [⟨true, [⟨2, ⟨0, 2, 0, 0, 0, 0⟩, 0, 0⟩], [⟨1, 0, 0, 500, 1, 0⟩]⟩]⟩,
      .push ⟨2, 1, 1, [⟨false, [⟨0, ⟨1, 0, 0, 500, 1, 0⟩, 1, 0⟩], [⟨2, 0, 0, 400, 1, 0⟩]⟩]⟩,
      .pop] [] := by simp only [WalkOK]; decide
@@ -165,17 +155,15 @@ theorem attach_only_owned (P : Params) (h : Nat) (t : Tx) (db : DB) (id : Nat) (
 /-- every attached block spends only outputs of the GLOBAL unspent set of the chain it extends
     (`rescan (allOf P)` = what an observer owning every program holds = the consensus UTXO set),
     with the content it claims, and creates fresh, pairwise distinct output ids; no reference to
-    the wallet's own table. `needNoVote`: and it pays no vote output to a wallet program. -/
-def GWalkOK (P : Params) (needNoVote : Bool) : List Step → List Block → Prop
+    the wallet's own table. -/
+def GWalkOK (P : Params) : List Step → List Block → Prop
   | [], _ => True
-  | .push b :: rest, chain =>
-    gvalidBlockB P b (rescan (allOf P) chain) = true ∧ (needNoVote = true → noOwnedVoteBlockB P b = true) ∧
-      GWalkOK P needNoVote rest (b :: chain)
-  | .pop :: rest, chain => GWalkOK P needNoVote rest chain.tail
+  | .push b :: rest, chain => gvalidBlockB P b (rescan (allOf P) chain) = true ∧ GWalkOK P rest (b :: chain)
+  | .pop :: rest, chain => GWalkOK P rest chain.tail
 
 /-- global validity implies the wallet-side validity used above, for every wallet -/
-theorem gwalk_implies_walk (P : Params) (nv : Bool) : ∀ (steps : List Step) (chain : List Block),
-    GChainOK P chain → GWalkOK P nv steps chain → WalkOK P nv steps chain := by
+theorem gwalk_implies_walk (P : Params) : ∀ (steps : List Step) (chain : List Block),
+    GChainOK P chain → GWalkOK P steps chain → WalkOK P steps chain := by
   intro steps
   induction steps with
   | nil => intro chain _ _; trivial
@@ -183,20 +171,20 @@ theorem gwalk_implies_walk (P : Params) (nv : Bool) : ∀ (steps : List Step) (c
     intro chain hc hw
     cases st with
     | push b =>
-      obtain ⟨hv, hn, hrest⟩ := hw
-      exact ⟨(project_block P b _ _ (rel_rescan P chain hc) hv).1, hn, ih (b :: chain) ⟨hv, hc⟩ hrest⟩
+      obtain ⟨hv, hrest⟩ := hw
+      exact ⟨(project_block P b _ _ (rel_rescan P chain hc) hv).1, ih (b :: chain) ⟨hv, hc⟩ hrest⟩
     | pop =>
       cases chain with
       | nil => exact ih [] trivial hw
       | cons b c => exact ih c hc.2 hw
 
 /-- `wallet_eq_rescan_global`: for EVERY walk of attaches and detaches whose attached blocks are
-    valid with respect to the global unspent-output set of the chain they extend and pay no vote
-    output to a wallet program, the wallet equals a rescan of the resulting chain (identity,
+    valid with respect to the global unspent-output set of the chain they extend, the wallet
+    equals a rescan of the resulting chain (identity,
     asset, amount, program, account, vote) — for every wallet (program table) `P`. -/
-theorem wallet_eq_rescan_global (P : Params) (steps : List Step) (hw : GWalkOK P true steps []) :
+theorem wallet_eq_rescan_global (P : Params) (steps : List Step) (hw : GWalkOK P steps []) :
     CoreEq (walk P steps ([], [])).2 (rescan P (walk P steps ([], [])).1) :=
-  wallet_eq_rescan_partial P steps (gwalk_implies_walk P true steps [] trivial hw)
+  wallet_eq_rescan P steps (gwalk_implies_walk P steps [] trivial hw)
 
 /-- the wallet's scan of a globally valid chain is the owned projection of the global set:
     the wallet holds an output iff it is globally unspent and its program is the wallet's -/
@@ -204,7 +192,7 @@ theorem rescan_is_owned_projection (P : Params) (chain : List Block) (hc : GChai
     (dbGet id (rescan P chain)).map core = ((dbGet id (rescan (allOf P) chain)).bind (owned P)).map core :=
   rel_rescan P chain hc id
 
-example : GWalkOK f14Params true
+example : GWalkOK f14Params
     [.push ⟨1, 0, 0, [⟨true, [⟨2, ⟨0, 2, 0, 0, 0, 0⟩, 0, 0⟩], [⟨1, 0, 0, 500, 1, 0⟩]⟩]⟩,
      .push ⟨2, 1, 1, [⟨false, [⟨0, ⟨1, 0, 0, 500, 1, 0⟩, 1, 0⟩], [⟨2, 0, 0, 400, 1, 0⟩, ⟨3, 0, 0, 100, 2, 0⟩]⟩]⟩,
      .pop] [] := by simp only [GWalkOK]; decide
@@ -250,7 +238,7 @@ def StatusOK (chain : List Block) (w : Wallet) : Prop :=
 
 /-- `updater_walk_status`: driven in the updater's order, `AttachBlock` never takes its silent
     skip branch, the status always points at the tip, and the UTXO table evolves exactly as
-    `walk` (so `wallet_eq_rescan_partial` speaks about the real entry points). -/
+    `walk` (so `wallet_eq_rescan` speaks about the real entry points). -/
 theorem updater_walk_status (P : Params) : ∀ (steps : List Step) (chain : List Block) (w : Wallet),
     UpdaterOrder steps chain → ChainLinked chain → StatusOK chain w →
     (walkWallet P steps (chain, w)).1 = (walk P steps (chain, w.db)).1 ∧
